@@ -191,7 +191,7 @@ def reopenSorted (st : Vol) : Vol :=
               | none => none }
 
 /-- `CompactMap.Delete` / `doLoading`'s delete branch: negate the size of a live entry, no-op otherwise -/
-def idxDelete (idx : Nat → Option Ent) (id : Nat) : Nat → Option Ent :=
+def c01IdxDelete (idx : Nat → Option Ent) (id : Nat) : Nat → Option Ent :=
   match idx id with
   | some e => if 0 < e.size then setIdx idx id ⟨e.off, -e.size⟩ else idx
   | none => idx
@@ -199,16 +199,16 @@ def idxDelete (idx : Nat → Option Ent) (id : Nat) : Nat → Option Ent :=
 /-- `doLoading`: replay of the .idx log, which has one row per .dat record (`off` = the offset of
     the next record): a row with a valid size (> 0) sets the key, every other row — a tombstone,
     or the size-0 row of an empty blob — goes through the delete branch. -/
-def replayIdx : List Rec → Nat → (Nat → Option Ent) → (Nat → Option Ent)
+def c01ReplayIdx : List Rec → Nat → (Nat → Option Ent) → (Nat → Option Ent)
   | [], _, idx => idx
   | r :: rs, off, idx =>
-    replayIdx rs (off + 1) (if 0 < r.size then setIdx idx r.id ⟨off, r.size⟩ else idxDelete idx r.id)
+    c01ReplayIdx rs (off + 1) (if 0 < r.size then setIdx idx r.id ⟨off, r.size⟩ else c01IdxDelete idx r.id)
 
 /-- Restart of a writable volume (Store close + reopen). The read-only mark is in memory only.
     In-memory needle map (`LoadCompactNeedleMap`): the index is rebuilt from the .idx log.
     LevelDB needle map with a fresh database (`isLevelDbFresh`): the database is kept as it is. -/
-def reload (kind : String) (st : Vol) : Vol :=
-  if kind == "mem" then { st with ro := false, idx := replayIdx st.log 1 (fun _ => none) }
+def c01Reload (kind : String) (st : Vol) : Vol :=
+  if kind == "mem" then { st with ro := false, idx := c01ReplayIdx st.log 1 (fun _ => none) }
   else { st with ro := false }
 
 /-! ## operations and runs -/
